@@ -42,9 +42,14 @@ func Run(c *hx.Ctx) {
 		runLifecycleKind(c)
 		return
 	}
+	if len(c.Args) > 0 && c.Args[0] == "sh" { // mosnh C16 sh: the shared-word / cluster-manager part alone
+		runShareKind(c)
+		return
+	}
 	runFlags(c)
 	runAlloc(c)
 	runChecker(c)
 	runDispatchKind(c)
 	runLifecycleKind(c)
+	runShareKind(c)
 }
